@@ -206,6 +206,9 @@ def spelling(W, mode):
         d.update({"q": "d.", "T": "(d.T)", "U": "d.U", "H": "(d.H)", "Secret": "(d.Secret)", "PT": "(*d.T)", "PH": "(*(d.H))", "imports": ['"%s/d"' % root]})
     elif mode == "self":
         d.update({"q": "", "T": "T", "U": "U", "H": "H", "Secret": "Secret", "PT": "*T", "PH": "*H", "imports": []})
+    elif mode == "dot":
+        # a dot import: the exported names of d are plain identifiers of the importing file
+        d.update({"q": "", "T": "T", "U": "U", "H": "H", "Secret": "Secret", "PT": "*T", "PH": "*H", "imports": ['. "%s/d"' % root], "dot": True})
     else:
         raise ValueError(mode)
     return d
@@ -273,10 +276,12 @@ def add_user_package(W, rng, dname, pkgname, sp, nfuncs, sid_prefix, test_file=F
             body += lines
         name = "%sF%d" % (cap, fi)
         doc = []
-        if fk == "ctorname" and dname != "d":
+        pickx = rng.random()
+        if fk == "ctorname" and dname != "d" and not sp.get("dot") and W.meta.get("ctor_names", True):
+            # (a dot import puts NewT / MakeT of d into the file scope: a function of that name cannot be declared beside it)
             cand = [n for n in ("NewT", "MakeT") if n not in W.decl_ids(dname)]
             if cand:
-                name = rng.choice(cand)
+                name = cand[int(pickx * len(cand))]
         if fk == "method":
             rt = "%sRecv%d" % (cap, fi)
             W.add(dname, fn, Decl(rt, ["type %s struct{}" % rt]))
@@ -347,15 +352,16 @@ def add_impl_multifile(W):
     W.pkgs["mf"]["no_move"] = True
 
 
-def full_world(rng, wid, modroot="w", stats=None, full_annotations=False, spelling_mode=None, with_impl=False):
+def full_world(rng, wid, modroot="w", stats=None, full_annotations=False, spelling_mode=None, with_impl=False, ctor_names=True):
     W = World(wid, "%s/%s" % (modroot, wid))
+    W.meta["ctor_names"] = ctor_names
     gen_decl_package(W, rng, full=full_annotations)
     W.add_pkg("m")
     W.add_file("m", "m.go", ['"%s/d"' % W.root])
     for a, b in (("AT", "d.T"), ("AH", "d.H"), ("ASecret", "d.Secret"), ("PT", "*d.T"), ("PH", "*d.H")):
         W.add("m", "m.go", Decl(a, ["type %s = %s" % (a, b)]))
     W.add("m", "m.go", Decl("Anchor", ["const Anchor = 0"]))
-    drawn = rng.choice(["direct", "direct", "import-alias", "third-alias", "local-alias"])
+    drawn = rng.choice(["direct", "direct", "import-alias", "third-alias", "local-alias", "dot"])
     mode = spelling_mode or drawn
     sp = spelling(W, mode)
     W.meta["spelling"] = mode
@@ -515,7 +521,7 @@ def render(W, outdir, rng=None, layout=None, edit=None):
                 for i in imps:
                     path = i.split(" ")[-1].strip('"')
                     alias = i.split(" ")[0] if " " in i else path.split("/")[-1]
-                    lines.append("var _ = %s.%s" % (alias, ANCHORS[path.split("/")[-1]]))
+                    lines.append("var _ = %s%s" % ("" if alias == "." else alias + ".", ANCHORS[path.split("/")[-1]]))
                 lines.append("")
             for dec in decls:
                 if layout.get("blank") and rng is not None:
